@@ -510,6 +510,12 @@ func (x *Exec) specIndex(sc *specCtx, base, idx Value) Value {
 			return v
 		}
 		if strings.HasPrefix(string(b.T.Sort), "(Array") {
+			if b.Typ != nil {
+				if at, ok := b.Typ.Underlying().(*types.Array); ok {
+					v, _ := x.unflatten(at.Elem(), []Term{sel(b.T, idx.(Scalar).T)})
+					return v
+				}
+			}
 			return Scalar{sel(b.T, idx.(Scalar).T), nil}
 		}
 		if b.T.Sort == SStr {
